@@ -335,7 +335,15 @@ class X12Reader(X12Base):
         """
         X12Base._parse_segment(self, seg_data)
         seg_id = seg_data.get_seg_id()
-        if seg_id == 'IEA':
+        if seg_id in ('ISA', 'GS', 'ST'):
+            # The header was just pushed; check the loop that encloses it
+            parent = self.loops[-2][0] if len(self.loops) > 1 else None
+            expected = {'ISA': None, 'GS': 'ISA', 'ST': 'GS'}[seg_id]
+            if parent != expected:
+                err_str = '{} segment found {}'.format(seg_id, \
+                    'inside an unterminated {} loop'.format(parent) if parent else 'outside of any loop')
+                self._isa_error('024', err_str)
+        elif seg_id == 'IEA':
             if self.loops and self.loops[-1][0] != 'ISA':
                 # Unterminated GS loop
                 err_str = 'Unterminated Loop {}'.format(self.loops[-1][0])
